@@ -908,15 +908,35 @@ class CallMixin:
                 return s
             return StrOp("join", [recv, seq])
         if name == "format":
-            if isinstance(recv, Cst) and isinstance(recv.value, str):
-                pieces = recv.value.split("{}")
-                if len(pieces) == len(args) + 1:
-                    parts = []
-                    for i, p in enumerate(pieces):
-                        parts.append(p)
-                        if i < len(args):
-                            parts.append(args[i])
-                    return Str(parts)
+            if isinstance(recv, Cst) and isinstance(recv.value, str) and not any(isinstance(a, Splice) for a in args):
+                # the real field grammar: `{{` / `}}` are literal braces, `{}` / `{0}` take the arguments
+                import string
+
+                try:
+                    fields = list(string.Formatter().parse(recv.value))
+                except ValueError:
+                    fields = None
+                if fields is not None and all(f[2] in (None, "") and f[3] is None for f in fields):
+                    parts, auto, ok = [], 0, True
+                    for lit, fname, _spec, _conv in fields:
+                        if lit:
+                            parts.append(lit)
+                        if fname is None:
+                            continue
+                        if fname == "":
+                            idx = auto
+                            auto += 1
+                        elif fname.isdigit():
+                            idx = int(fname)
+                        else:
+                            ok = False
+                            break
+                        if idx >= len(args):
+                            ok = False
+                            break
+                        parts.append(args[idx])
+                    if ok:
+                        return Str(parts)
             return StrOp("format", [recv] + list(args))
         if name in ("isdigit", "isidentifier", "startswith", "endswith", "isalnum", "isalpha", "isspace", "isnumeric", "isdecimal"):
             argd = ",".join(repr(a.value) if isinstance(a, Cst) else self.describe(a) for a in args)
